@@ -1,4 +1,5 @@
 import WebpVerif.Lemmas.Arith
+import WebpVerif.Lemmas.ArithRfc
 import WebpVerif.Spec.BoolDec
 import WebpVerif.Gen.Tables
 
@@ -16,8 +17,8 @@ Proved here, for every decoder state / byte string / request:
   every read, hence every shift amount is legal and every `debug_assert!` holds (C03);
 * flags are `read_bool(128)`;
 * exhaustion is sticky and leaves the decoder untouched.
-The refinement to `BoolDec` itself is stated (`refines_rfc_full`) and, in this pass, validated by
-the correspondence run (exhaustive for short strings) rather than proved.
+The refinement to `BoolDec` itself (`refines_rfc_full`) is proved (`refines_rfc`): both decoders
+are finite-precision views of one ideal decoder (Lemmas/ArithRfc.lean).
 -/
 namespace C15
 open Arith
@@ -108,8 +109,7 @@ theorem crate_trees_ok :
       ∀ nd ∈ treeNodesFrom Gen.Tables.KEYFRAME_BPRED_MODE_TREE qs, nd.prob < 256 ∧ (nd.left < 9 ∨ 128 ≤ nd.left) ∧ (nd.right < 9 ∨ 128 ≤ nd.right)) := by
   decide +kernel
 
-/-- The property at full strength (NOT yet a theorem in this pass; validated by the
-    correspondence run, exhaustively for all strings of length ≤ 2/3): on every byte string whose
+/-- The property at full strength (proved below as `refines_rfc`): on every byte string whose
     first byte is not 0xFF and every request program, the model's answers equal the RFC decoder's
     until exhaustion, and exhaustion is reported after the same request. -/
 def toSpec : Arith.Req → BoolDec.Req
@@ -127,6 +127,122 @@ def refines_rfc_full : Prop :=
     (∀ b ∈ data, b < 256) → data.head? ≠ some 255 → (∀ r ∈ reqs, ReqOk r) →
     BoolDec.agreeUntilExhausted (Arith.run (Arith.init data) reqs)
       (BoolDec.run (BoolDec.init data) (reqs.map toSpec)) = true
+
+/-- the decoder's four trees (all 100 probability vectors of the sub-block mode tree) have the
+    RFC shape the walk lemmas need -/
+theorem crate_trees_good :
+    ArithRfc.treeGood Gen.Tables.KEYFRAME_YMODE_TREE Gen.Tables.KEYFRAME_YMODE_PROBS = true ∧
+    ArithRfc.treeGood Gen.Tables.KEYFRAME_UV_MODE_TREE Gen.Tables.KEYFRAME_UV_MODE_PROBS = true ∧
+    ArithRfc.treeGood Gen.Tables.SEGMENT_ID_TREE [255, 255, 255] = true ∧
+    (∀ ps' ∈ Gen.Tables.KEYFRAME_BPRED_MODE_PROBS, ∀ ps ∈ ps', ArithRfc.treeGood Gen.Tables.KEYFRAME_BPRED_MODE_TREE ps = true) := by
+  decide +kernel
+
+theorem reqok_tree_good (t : List Int) (ps : List Nat) (h : ReqOk (.tree t ps)) : ArithRfc.treeGood t ps = true := by
+  obtain ⟨g1, g2, g3, g4⟩ := crate_trees_good
+  rcases h with h | ⟨h1, ps', h2, h3⟩
+  · simp only [List.mem_cons, Prod.mk.injEq, List.not_mem_nil, or_false] at h
+    rcases h with ⟨rfl, rfl⟩ | ⟨rfl, rfl⟩ | ⟨rfl, rfl⟩
+    · exact g1
+    · exact g2
+    · exact g3
+  · subst h1; exact g4 ps' h2 ps h3
+
+open ArithRfc in
+theorem step_sim (data : List Nat) (hb : ∀ b ∈ data, b < 256) (r : Arith.Req) (hok : ReqOk r)
+    (d : Dec) (s : BoolDec.St) (h : Sim data d s) :
+    ∃ v d' v' s', Arith.step d r = some (v, d') ∧ BoolDec.step s (toSpec r) = some (v', s') ∧ Sim data d' s' ∧
+      (isPastEof d' = false → v = v') := by
+  have hwf : WF d := h.2.1
+  cases r with
+  | bool p =>
+    have hp : p < 256 := hok
+    obtain ⟨a, b, _⟩ := sim_bit data hb d s p hp h
+    refine ⟨_, _, _, _, rfl, rfl, ?_, ?_⟩
+    · show Sim data (readBool d p).2 (BoolDec.readBool s p).2
+      rw [read_bool_path_independent d p hp hwf]; exact a
+    · show isPastEof (readBool d p).2 = false → (((readBool d p).1.toNat : Nat) : Int) = (((BoolDec.readBool s p).1.toNat : Nat) : Int)
+      rw [read_bool_path_independent d p hp hwf]
+      intro he; rw [(b he).2]
+  | flag =>
+    obtain ⟨a, b, _⟩ := sim_bit data hb d s 128 (by omega) h
+    refine ⟨_, _, _, _, rfl, rfl, ?_, ?_⟩
+    · show Sim data (readFlag d).2 (BoolDec.readFlag s).2
+      rw [read_flag_path_independent d hwf]; exact a
+    · show isPastEof (readFlag d).2 = false → (((readFlag d).1.toNat : Nat) : Int) = (((BoolDec.readFlag s).1.toNat : Nat) : Int)
+      rw [read_flag_path_independent d hwf]
+      intro he; rw [(b he).2]; rfl
+  | literal n =>
+    have hn : n ≤ 8 := hok
+    obtain ⟨a, b⟩ := sim_literal data hb n d s 0 0 0 h (by decide) (by omega) (fun _ => rfl)
+    refine ⟨_, _, _, _, rfl, rfl, ?_, ?_⟩
+    · show Sim data (readLiteral d n).2 (BoolDec.readLiteral n s 0).2
+      rw [read_literal_path_independent d n hwf]; exact a
+    · show isPastEof (readLiteral d n).2 = false → (((readLiteral d n).1 : Nat) : Int) = (((BoolDec.readLiteral n s 0).1 : Nat) : Int)
+      rw [read_literal_path_independent d n hwf]
+      intro he; rw [(b he).2]
+  | signed n =>
+    have hn : n ≤ 8 := hok
+    obtain ⟨a, b⟩ := sim_signed data hb n hn d s h
+    refine ⟨_, _, _, _, rfl, rfl, ?_, ?_⟩
+    · show Sim data (readOptionalSigned d n).2 (BoolDec.readSigned s n).2
+      rw [read_signed_path_independent d n hwf]; exact a
+    · show isPastEof (readOptionalSigned d n).2 = false → (readOptionalSigned d n).1 = (BoolDec.readSigned s n).1
+      rw [read_signed_path_independent d n hwf]
+      exact b
+  | tree t ps =>
+    have f := treeFacts t ps (reqok_tree_good t ps hok)
+    have hall : ∀ (k : Nat) (nd : Node), (nodesOf t ps)[k]? = some nd → nd.prob < 256 := by
+      intro k nd hk
+      have hlt : k < t.length / 2 := by
+        rw [← f.size]
+        by_contra hge
+        rw [Array.getElem?_eq_none (Nat.not_lt.mp hge)] at hk
+        exact absurd hk (by simp)
+      rw [f.node k hlt] at hk
+      rw [← Option.some.inj hk]
+      exact f.prob k hlt
+    have hfirst := f.node 0 f.pos
+    obtain ⟨r, hfast⟩ := fast_tree_total t ps f d.chunks (t.length / 2) ((nodesOf t ps).size + 1) 0 d.state _
+      (by omega) (by rw [f.size]; omega) f.pos hfirst
+    have hpi := read_tree_path_independent d (nodesOf t ps) hall hwf _ hfirst r hfast
+    obtain ⟨v, d', v', s', e1, e2, e3, e4⟩ := tree_sim t ps f data hb (t.length / 2) ((nodesOf t ps).size + 1) (t.length + 1) 0 d s
+      (by omega) (by rw [f.size]; omega) (by omega) f.pos h
+    refine ⟨(v : Int), d', (v' : Int), s', ?_, ?_, e3, fun he => by rw [e4 he]⟩
+    · show (readWithTree d (nodesOf t ps)).map (fun (x : Nat × Dec) => ((x.1 : Int), x.2)) = some ((v : Int), d')
+      rw [hpi, e1]; rfl
+    · show (BoolDec.readTree t ps (t.length + 1) s 0).map (fun (x : Nat × BoolDec.St) => ((x.1 : Int), x.2)) = some ((v' : Int), s')
+      rw [show (0 : Nat) = 2 * 0 from rfl, e2]; rfl
+
+open ArithRfc in
+theorem run_sim (data : List Nat) (hb : ∀ b ∈ data, b < 256) (reqs : List Arith.Req) :
+    ∀ (d : Dec) (s : BoolDec.St), Sim data d s → (∀ r ∈ reqs, ReqOk r) →
+      BoolDec.agreeUntilExhausted (Arith.run d reqs) (BoolDec.run s (reqs.map toSpec)) = true := by
+  induction reqs with
+  | nil => intro d s _ _; rfl
+  | cons r rs ih =>
+    intro d s h hall
+    have hok := hall r (List.mem_cons_self ..)
+    obtain ⟨v, d', v', s', e1, e2, hs, hv⟩ := step_sim data hb r hok d s h
+    have hfl := sim_flags data d' s' hs
+    simp only [List.map_cons, Arith.run, BoolDec.run, e1, e2, BoolDec.agreeUntilExhausted]
+    rw [← hfl]
+    cases he : isPastEof d' with
+    | true => simp
+    | false =>
+      simp only [Bool.or_self, Bool.false_eq_true, if_false, Bool.and_eq_true, beq_iff_eq]
+      exact ⟨hv he, ih d' s' hs (fun r hr => hall r (List.mem_cons_of_mem _ hr))⟩
+
+/-- **Refinement to RFC 6386 section 7.3 (the property at full strength).** For every byte
+    string whose first byte is not 0xFF and every program of requests - booleans with any byte
+    probability, flags, literals and optional signed values of up to 8 bits, and reads with any
+    of the decoder's four trees under their (100 + 3) probability vectors - the crate's decoder
+    (chunked 64-bit register, speculative fast path with rollback, cold path, trailing bytes, one
+    tolerated pad byte) returns exactly the values of the RFC's decoder after every request until
+    the data is exhausted, and reports exhaustion after exactly the request at which the RFC
+    decoder's decisions first depend on more than one byte past the end. -/
+theorem refines_rfc : refines_rfc_full := by
+  intro data reqs hb h255 hok
+  exact run_sim data hb reqs _ _ (ArithRfc.sim_init data hb h255) hok
 
 -- non-vacuity / regression: the crate's own unit-test vectors, through model and specification
 example : (Arith.run (Arith.init [0x68, 0x65, 0x6c]) [.flag, .bool 10, .bool 250, .literal 1, .literal 3, .literal 8, .literal 8]).map (·.1)
